@@ -1,7 +1,7 @@
 (* PV.C14.Properties — the property theorems of C14 and nothing else.
    Quantities are integers in units of 1/scale (see Model.v); `set_lab r 0` forgets the index label. *)
 From Coq Require Import ZArith List Bool Permutation.
-From PV Require Import C14.Model C14.Proofs C14.ProofsDoseid C14.ProofsExpand C14.ProofsTad C14.ProofsMisc C14.ProofsTadWalk C14.ProofsExtend.
+From PV Require Import C14.Model C14.Proofs C14.ProofsDoseid C14.ProofsExpand C14.ProofsTad C14.ProofsMisc C14.ProofsTadWalk C14.ProofsExtend C14.ProofsExtend2.
 Import ListNotations.
 Local Open Scope Z_scope.
 
@@ -181,4 +181,31 @@ Theorem add_admid_frame : forall (mi : minfo) (d : dataset) (rows' : list row), 
   /\ (has_admid (ds_sch d) = true -> rows' = ds_rows d)
   /\ (has_admid (ds_sch d) = false -> exists adm, admid_impl mi d = Ok adm /\ map r_admid rows' = map snd adm).
 Proof. exact add_admid_frame_lemma. Qed.
+
+(* ---------------------------------------------------------------- second extension round *)
+(* add_time_after_dose = the per-individual walk over the working frame under ONE guard: get_doseid's
+   guard on that frame (guard_tad_walk; the expanded frame when there is an ADDL column).  No hypothesis on
+   the order of the DOSEIDs: an observation counted towards the preceding dose — recorded at the time of
+   a dose after it, or at the time of an implied ADDL dose — gets the time since that preceding dose,
+   exactly as the walk does (tad_refines_frame and tad_refines are instances). *)
+Theorem tad_refines_full : forall d : dataset, guard_tad_walk d = true ->
+  exists fr out, tad_frame d = Ok fr /\ tad_impl d = Ok out
+    /\ map snd out = map snd (filter (fun p : (row * bool) * Z => negb (snd (fst p)))
+                                    (combine fr (tad_walk (with_rows d (map fst fr) true)))).
+Proof. exact tad_refines_full_lemma. Qed.
+
+(* without an ADDL column the frame is the dataset: the TAD column is the walk's, under guard_doseid alone *)
+Theorem tad_refines_noaddl : forall d : dataset, has_addl (ds_sch d) = false -> guard_doseid d = true ->
+  exists out, tad_impl d = Ok out /\ map snd out = tad_walk d.
+Proof. exact tad_refines_noaddl_lemma. Qed.
+
+(* list_time_varying_covariates is exact: the j-th covariate column is listed if and only if some
+   individual has two records with different values of it *)
+Theorem tvc_exact : forall (ncov : nat) (d : dataset) (l : list bool), tvc_impl ncov d = Ok l ->
+  length l = ncov /\ forall j, (j < ncov)%nat -> (nth j l false = true <-> varies j (ds_rows d)).
+Proof. exact tvc_exact_lemma. Qed.
+
+(* get_observations(keep_index=True) = the DV of the observation records under their index labels *)
+Theorem obs_keep_spec : forall d : dataset, obs_keep_impl d = obs_keep_walk (ds_sch d) (ds_rows d).
+Proof. exact obs_keep_spec_lemma. Qed.
 
